@@ -338,7 +338,45 @@ func runC13(tier string) int {
 		r.Add("long_definition_lists", 1)
 		eval(fmt.Sprintf("long%d size=%d", idx%2, k), head.String()+with.String(), strings.Repeat("\n", k)+without.String(), true)
 	})
-	if !longDone {
+	// constant trees: a base of T tokens, two constants that extend it, and constants composed from the first extension that are
+	// defined before and after the second one (each definition is expanded on its own), for every T up to a bound
+	maxT := 24
+	if tier == "thorough" {
+		maxT = 80
+	}
+	treeDone := r.Parallel(uint64(maxT)*3, func(w int, idx uint64) {
+		t := int(idx/3) + 1
+		variant := int(idx % 3)
+		base := "B0"
+		for i := 1; i < t; i++ {
+			if i%2 == 1 {
+				base += " +"
+			} else {
+				base += fmt.Sprintf(" B%d", i/2)
+			}
+		}
+		if t%2 == 0 {
+			base += " 9"
+		}
+		first, second := base+" + 1", base+" + 2"
+		defs := []string{"const BASE = " + base, "const FIRST = BASE + 1"}
+		alias, aliasVal := "const ALIAS = FIRST", first
+		if variant == 1 {
+			alias, aliasVal = "const ALIAS = FIRST + 10", first+" + 10"
+		}
+		if variant == 2 {
+			defs = append(defs, alias, "const SECOND = BASE + 2")
+		} else {
+			defs = append(defs, "const SECOND = BASE + 2", alias)
+		}
+		defs = append(defs, "const THIRD = BASE + 3 + 4", "const LAST = ALIAS")
+		use := func(a, b, c, d, e string) string {
+			return "script S {\n\tcmd(" + a + ", " + b + ")\n\tcmd2(" + c + ", " + d + ", " + e + ")\n\tif (var(V) == " + a + ") {\n\t\tx\n\t}\n}\n"
+		}
+		r.Add("constant_trees", 1)
+		eval(fmt.Sprintf("tree base-tokens=%d variant=%d", t, variant), strings.Join(defs, "\n")+"\n"+use("ALIAS", "SECOND", "FIRST", "BASE", "LAST"), strings.Repeat("\n", len(defs))+use(aliasVal, second, first, base, aliasVal), true)
+	})
+	if !longDone || !treeDone {
 		r.NotExhaustive("long definition lists not completed")
 	}
 	r.Set("long_max_constants", maxK)
@@ -370,7 +408,7 @@ func runC13(tier string) int {
 	r.Assume("values with parentheses are only used at sites where nested parentheses can be written out literally (command arguments, value(...))",
 		"const lines are replaced by blank lines so that line markers stay comparable")
 	return r.Finish(r.Get("evaluations"), r.Get("nontrivial"),
-		"17 definition sets (a value naming a constant that is defined later; single token, multi-token, parenthesised, const from const two levels deep, hex, negative, multi-byte value; constant names with a non-ASCII first letter, a non-ASCII letter inside, a leading underscore, lower case with digits) x every single use site, every pair and triple (thorough: quadruple) and all 28 documented use sites (incl. the var argument of AutoVar commands with var_name_arg_position 0 and 1) (five of them inside a larger expression) at once (command argument incl. nested, flag/var/defeated operands, comparison values incl. value(), switch operand and case value, AutoVar argument and comparison, goto target, map-script table var/value and inline body, mart item) + 9 non-positions (command name, movement step, label, moves() step, text content, script/text/mapscripts names, raw, poryswitch case label selected by -s) + use before definition + redefinition + every identifier-like literal of the compiler's own source as a constant's name and as its value at every site + chains of K constants and K independent constants for every K up to the bound in the coverage; outputs compared byte for byte with line markers on, optimize on/off; also every program of the control-flow families (C01 / C03 / C04 bounds) with every operand, comparison value and case value written as a constant; non-trivial = multi-token or chained definition")
+		"17 definition sets (a value naming a constant that is defined later; single token, multi-token, parenthesised, const from const two levels deep, hex, negative, multi-byte value; constant names with a non-ASCII first letter, a non-ASCII letter inside, a leading underscore, lower case with digits) x every single use site, every pair and triple (thorough: quadruple) and all 28 documented use sites (incl. the var argument of AutoVar commands with var_name_arg_position 0 and 1) (five of them inside a larger expression) at once (command argument incl. nested, flag/var/defeated operands, comparison values incl. value(), switch operand and case value, AutoVar argument and comparison, goto target, map-script table var/value and inline body, mart item) + 9 non-positions (command name, movement step, label, moves() step, text content, script/text/mapscripts names, raw, poryswitch case label selected by -s) + use before definition + redefinition + every identifier-like literal of the compiler's own source as a constant's name and as its value at every site + constant trees (a base of T tokens for every T up to a bound, two extensions, constants composed from the first extension defined before / after the second) + chains of K constants and K independent constants for every K up to the bound in the coverage; outputs compared byte for byte with line markers on, optimize on/off; also every program of the control-flow families (C01 / C03 / C04 bounds) with every operand, comparison value and case value written as a constant; non-trivial = multi-token or chained definition")
 }
 
 var (
